@@ -218,6 +218,14 @@ T_C17 = T("C17", "wrun_wf", "state_inv", "closed_write", "closed_readFrom", "clo
     + T("C17", "close_closes_partial", "error_sticky_partial", "apply_only_new_partial", kind="for every well-formed state (every reachable state is well-formed: wrun_wf)") \
     + T("C17", "close_closes_false", "error_sticky_false", "apply_only_new_false", "reader_eof_closes_false", "options_fixed_reset_false",
         kind="counterexample on a state no call sequence reaches / on the empty stream / Reset restoring the block size (see DESIGN.md)")
+T_C08t = T("C08trace", "W.trace_valid", "W.trace_valid_complete", "W.trace_tail", "W.trace_valid_strict", "W.strict_checker_sound",
+           "R.trace_valid", "R.trace_valid_complete", "R.trace_valid_hook", "R.trace_valid_complete_hook", "R.trace_tail", "R.trace_tail_hook",
+           "W.rejects_reorder", "W.rejects_uncompressed", "W.rejects_early_release", "W.rejects_lost_block", "R.rejects_reorder", "R.rejects_gap")
+T_C01rt = T("C01rt", "c01_fast_go", "c01_hc_go", "c01_fast_asm", "c01_hc_asm")
+T_C09leg = T("C09legacy", "c09_legacy", "c09_legacy_clean", "size_word_range")
+T_C15r = T("C15r", "frag_writeTo", "frag_read", "frag_any", "source_failure_writeTo", "source_failure_read", "source_failure_general")
+T_C06r = T("C15r", "c06_truncated_read", "c06_truncated_frag")
+
 T_C09 = T("C09", "idx_valid", "c09_writer", "c09_writer_fast", "c09_clean") + T("C09full", "hcCorrect", "c09_writer_all", "c09_clean_all", ns="C09")
 T_C19 = T("C19", "c19_accept_iff", "c19_bad_checksum", "c19_bad_block_size", "c19_size", "c19_bad_magic", "c19_spec", "c19_reader_size")
 
